@@ -1,0 +1,39 @@
+//go:build verif
+
+// Thin exports for the verification harness (/verif/harness/cmd/sessions, property C14). Add-only, compiled
+// only with -tags verif. No logic: createSession with a caller-chosen minimum timeout (the public
+// CreateSession pins constant.MinSessionTimeout = 2s, too long for a check that has to finish in seconds)
+// and a read-only view of the session manager's in-memory session table.
+package server
+
+import (
+	"sort"
+	"time"
+
+	"github.com/oxia-db/oxia/proto"
+)
+
+// VerifCreateSession is sessionManager.createSession(request, minTimeout) on the leader's current session manager.
+func VerifCreateSession(l LeaderController, request *proto.CreateSessionRequest, minTimeout time.Duration) (*proto.CreateSessionResponse, error) {
+	lc := l.(*leaderController)
+	lc.RLock()
+	sm := lc.sessionManager.(*sessionManager)
+	lc.RUnlock()
+	return sm.createSession(request, minTimeout)
+}
+
+// VerifSessionIds returns the ids in the current session manager's table (sm.sessions), sorted.
+func VerifSessionIds(l LeaderController) []int64 {
+	lc := l.(*leaderController)
+	lc.RLock()
+	sm := lc.sessionManager.(*sessionManager)
+	lc.RUnlock()
+	sm.RLock()
+	defer sm.RUnlock()
+	var ids []int64
+	for _, id := range sm.sessions.Keys() {
+		ids = append(ids, int64(id))
+	}
+	sort.Slice(ids, func(i, j int) bool { return ids[i] < ids[j] })
+	return ids
+}
